@@ -183,7 +183,7 @@ Qed.
 Theorem total_no_panic : forall c items, snd (run c init items) <> EPanic.
 Proof. intros. apply run_no_panic, inv_init. Qed.
 
-Theorem progress : forall c s l, tls_enabled c = false -> st s <> DATA -> st s <> QUIT ->
+Theorem progress : forall c s l, st s <> DATA -> st s <> QUIT ->
   exists s' r d, step c s (L l) = Ok s' r d.
 Proof. intros. apply step_fits_line; assumption. Qed.
 
